@@ -27,6 +27,17 @@ static int g_guard, g_place = GA_SLACK;
                 x;                                                                                     \
                 hx_in_call = 0;                                                                        \
         } while (0)
+/* direct calls of up to six arguments go through the register-checking trampoline (C18) */
+#define A64(x) ((uint64_t) (x))
+#define HXM1(a) A64(a)
+#define HXM2(a, b) A64(a), A64(b)
+#define HXM3(a, b, c) A64(a), A64(b), A64(c)
+#define HXM4(a, b, c, d) A64(a), A64(b), A64(c), A64(d)
+#define HXM5(a, b, c, d, e) A64(a), A64(b), A64(c), A64(d), A64(e)
+#define HXM6(a, b, c, d, e, f) A64(a), A64(b), A64(c), A64(d), A64(e), A64(f)
+#define HXC_SEL(_1, _2, _3, _4, _5, _6, NAME, ...) NAME
+#define HXC_CNT(...) HXC_SEL(__VA_ARGS__, 6, 5, 4, 3, 2, 1)
+#define HXC(fn, ...) hx_call((void *) (M->fn), HXC_CNT(__VA_ARGS__), HXC_SEL(__VA_ARGS__, HXM6, HXM5, HXM4, HXM3, HXM2, HXM1)(__VA_ARGS__))
 #define LIBVAL(x)                                                                                      \
         ({                                                                                             \
                 hx_in_call = g_guard;                                                                  \
@@ -268,9 +279,9 @@ quic_all(hx_rng *g, int reps)
                         DECLARE_ALIGNED(uint8_t ek[15 * 16], 16);
                         DECLARE_ALIGNED(uint8_t dk[15 * 16], 16);
                         if (kl == 16)
-                                LIBCALL(IMB_AES_KEYEXP_128(M, key, ek, dk));
+                                (void) HXC(keyexp_128, key, ek, dk);
                         else
-                                LIBCALL(IMB_AES_KEYEXP_256(M, key, ek, dk));
+                                (void) HXC(keyexp_256, key, ek, dk);
                         hx_call((void *) imb_quic_hp_aes_ecb, 6, (uint64_t) M, (uint64_t) ek, (uint64_t) dp, (uint64_t) sp_, (uint64_t) n,
                                 (uint64_t) kl);
                         int same = imb_get_errno(M) == 0;
@@ -350,7 +361,7 @@ direct_all(hx_rng *g, int reps)
                         int st = job_result("+GHASH", &sp, &j);
                         uint8_t tag[16];
                         memcpy(tag, j.tmpl.u.GHASH._init_tag, 16);
-                        LIBCALL(IMB_GHASH(M, j.tmpl.u.GHASH._key, IN_OF(&j) + sp.hoff, sp.hlen, tag, 16));
+                        (void) HXC(ghash, j.tmpl.u.GHASH._key, IN_OF(&j) + sp.hoff, sp.hlen, tag, 16);
                         log_direct("ghash", "+GHASH", 1, memcmp(tag, j.tag, 16) == 0, st);
                         hx_job_free(&j);
                 }
@@ -366,7 +377,7 @@ direct_all(hx_rng *g, int reps)
                                       : it % 5 == 2 ? M->sha256
                                       : it % 5 == 3 ? M->sha384
                                                     : M->sha512;
-                        LIBCALL(f(IN_OF(&j) + sp.hoff, sp.hlen, dg));
+                        (void) hx_call((void *) f, 3, A64(IN_OF(&j) + sp.hoff), A64(sp.hlen), A64(dg));
                         log_direct("sha", kind, 1, memcmp(dg, j.tag, sp.taglen) == 0, st);
                         hx_job_free(&j);
                 }
@@ -382,7 +393,7 @@ direct_all(hx_rng *g, int reps)
                                            M->crc24_lte_a,        M->crc24_lte_b,     M->crc16_x25,
                                            M->crc16_fp_data,      M->crc11_fp_header, M->crc10_iuup_data,
                                            M->crc8_wimax_ofdma_hcs, M->crc7_fp_header, M->crc6_iuup_header };
-                        uint32_t c = LIBVAL(f[k](IN_OF(&j) + sp.hoff, sp.hlen));
+                        uint32_t c = (uint32_t) hx_call((void *) f[k], 2, A64(IN_OF(&j) + sp.hoff), A64(sp.hlen));
                         uint32_t t = (uint32_t) j.tag[0] | ((uint32_t) j.tag[1] << 8) | ((uint32_t) j.tag[2] << 16) |
                                      ((uint32_t) j.tag[3] << 24);
                         log_direct("crc", ks[k], 1, c == t, st);
@@ -395,7 +406,7 @@ direct_all(hx_rng *g, int reps)
                         sp.inplace = 0;
                         int st = job_result("CFB128E", &sp, &j);
                         uint8_t out[16];
-                        LIBCALL(IMB_AES128_CFB_ONE(M, out, IN_OF(&j) + sp.coff, j.iv, j.tmpl.enc_keys, 16));
+                        (void) HXC(aes128_cfb_one, out, IN_OF(&j) + sp.coff, j.iv, j.tmpl.enc_keys, 16);
                         log_direct("cfb_one", "CFB128E", 1, memcmp(out, j.dst, 16) == 0, st);
                         hx_job_free(&j);
                 }
@@ -428,11 +439,11 @@ direct_all(hx_rng *g, int reps)
                         memcpy(dsts2, dsts, sizeof(dsts2));
                         memcpy(lens2, lens, sizeof(lens2));
                         if (n == 1)
-                                LIBCALL(IMB_ZUC_EEA3_1_BUFFER(M, keys[0], ivs[0], srcs[0], dsts[0], lens[0]));
+                                (void) HXC(eea3_1_buffer, keys[0], ivs[0], srcs[0], dsts[0], lens[0]);
                         else if (n == 4)
-                                LIBCALL(IMB_ZUC_EEA3_4_BUFFER(M, keys2, ivs2, srcs2, dsts2, lens2));
+                                (void) HXC(eea3_4_buffer, keys2, ivs2, srcs2, dsts2, lens2);
                         else
-                                LIBCALL(IMB_ZUC_EEA3_N_BUFFER(M, keys2, ivs2, srcs2, dsts2, lens2, (uint32_t) n));
+                                (void) HXC(eea3_n_buffer, keys2, ivs2, srcs2, dsts2, lens2, (uint32_t) n);
                         for (int i = 0; i < n; i++) {
                                 if (memcmp(dsts[i], zj[i].dst, lens[i]) != 0)
                                         same = 0;
@@ -443,8 +454,7 @@ direct_all(hx_rng *g, int reps)
                         hx_spec_from_kind("+ZUCEIA3", g, &sp);
                         int st2 = job_result("+ZUCEIA3", &sp, &j);
                         uint32_t tag = 0;
-                        LIBCALL(IMB_ZUC_EIA3_1_BUFFER(M, j.tmpl.u.ZUC_EIA3._key, j.tmpl.u.ZUC_EIA3._iv, IN_OF(&j) + sp.hoff,
-                                              (uint32_t) j.tmpl.msg_len_to_hash_in_bits, &tag));
+                        (void) HXC(eia3_1_buffer, j.tmpl.u.ZUC_EIA3._key, j.tmpl.u.ZUC_EIA3._iv, IN_OF(&j) + sp.hoff, (uint32_t) j.tmpl.msg_len_to_hash_in_bits, &tag);
                         log_direct("zuc_eia3_1", "+ZUCEIA3", 1, memcmp(&tag, j.tag, 4) == 0, st2);
                         hx_job_free(&j);
                 }
@@ -472,7 +482,7 @@ direct_all(hx_rng *g, int reps)
                         /* the N-buffer call takes one key: use each job's own key in a 1-buffer call when
                          * n == 1, otherwise re-run the jobs' inputs under the first job's key both ways */
                         if (n == 1) {
-                                LIBCALL(IMB_SNOW3G_F8_1_BUFFER(M, zj[0].tmpl.enc_keys, ivs[0], srcs[0], dsts[0], lens[0]));
+                                (void) HXC(snow3g_f8_1_buffer, zj[0].tmpl.enc_keys, ivs[0], srcs[0], dsts[0], lens[0]);
                                 same = memcmp(dsts[0], zj[0].dst, lens[0]) == 0;
                         } else {
                                 /* the n-buffer calls may reorder/advance the arrays they are given */
@@ -483,10 +493,10 @@ direct_all(hx_rng *g, int reps)
                                 memcpy(srcs2, srcs, sizeof(srcs2));
                                 memcpy(dsts2, dsts, sizeof(dsts2));
                                 memcpy(lens2, lens, sizeof(lens2));
-                                LIBCALL(IMB_SNOW3G_F8_N_BUFFER(M, zj[0].tmpl.enc_keys, ivs2, srcs2, dsts2, lens2, (uint32_t) n));
+                                (void) HXC(snow3g_f8_n_buffer, zj[0].tmpl.enc_keys, ivs2, srcs2, dsts2, lens2, (uint32_t) n);
                                 for (int i = 0; i < n; i++) {
                                         uint8_t *one = out_alloc(lens[i]);
-                                        LIBCALL(IMB_SNOW3G_F8_1_BUFFER(M, zj[0].tmpl.enc_keys, ivs[i], srcs[i], one, lens[i]));
+                                        (void) HXC(snow3g_f8_1_buffer, zj[0].tmpl.enc_keys, ivs[i], srcs[i], one, lens[i]);
                                         if (memcmp(one, dsts[i], lens[i]) != 0)
                                                 same = 0;
                                         out_free(one);
@@ -502,8 +512,7 @@ direct_all(hx_rng *g, int reps)
                         hx_spec_from_kind("+SNOW3GUIA2", g, &sp);
                         int st2 = job_result("+SNOW3GUIA2", &sp, &j);
                         uint8_t tag[4];
-                        LIBCALL(IMB_SNOW3G_F9_1_BUFFER(M, j.tmpl.u.SNOW3G_UIA2._key, j.tmpl.u.SNOW3G_UIA2._iv,
-                                               IN_OF(&j) + sp.hoff, j.tmpl.msg_len_to_hash_in_bits, tag));
+                        (void) HXC(snow3g_f9_1_buffer, j.tmpl.u.SNOW3G_UIA2._key, j.tmpl.u.SNOW3G_UIA2._iv, IN_OF(&j) + sp.hoff, j.tmpl.msg_len_to_hash_in_bits, tag);
                         log_direct("snow3g_f9_1", "+SNOW3GUIA2", 1, memcmp(tag, j.tag, 4) == 0, st2);
                         hx_job_free(&j);
                 }
@@ -528,7 +537,7 @@ direct_all(hx_rng *g, int reps)
                                 lens[i] = zj[i].sp.len;
                         }
                         if (n == 1) {
-                                LIBCALL(IMB_KASUMI_F8_1_BUFFER(M, zj[0].tmpl.enc_keys, ivs[0], srcs[0], dsts[0], lens[0]));
+                                (void) HXC(f8_1_buffer, zj[0].tmpl.enc_keys, ivs[0], srcs[0], dsts[0], lens[0]);
                                 same = memcmp(dsts[0], zj[0].dst, lens[0]) == 0;
                         } else {
                                 uint64_t ivs2[32];
@@ -539,10 +548,10 @@ direct_all(hx_rng *g, int reps)
                                 memcpy(srcs2, srcs, sizeof(srcs2));
                                 memcpy(dsts2, dsts, sizeof(dsts2));
                                 memcpy(lens2, lens, sizeof(lens2));
-                                LIBCALL(IMB_KASUMI_F8_N_BUFFER(M, zj[0].tmpl.enc_keys, ivs2, srcs2, dsts2, lens2, (uint32_t) n));
+                                (void) HXC(f8_n_buffer, zj[0].tmpl.enc_keys, ivs2, srcs2, dsts2, lens2, (uint32_t) n);
                                 for (int i = 0; i < n; i++) {
                                         uint8_t *one = out_alloc(lens[i]);
-                                        LIBCALL(IMB_KASUMI_F8_1_BUFFER(M, zj[0].tmpl.enc_keys, ivs[i], srcs[i], one, lens[i]));
+                                        (void) HXC(f8_1_buffer, zj[0].tmpl.enc_keys, ivs[i], srcs[i], one, lens[i]);
                                         if (memcmp(one, dsts[i], lens[i]) != 0)
                                                 same = 0;
                                         out_free(one);
@@ -558,7 +567,7 @@ direct_all(hx_rng *g, int reps)
                         hx_spec_from_kind("+KASUMIUIA1", g, &sp);
                         int st2 = job_result("+KASUMIUIA1", &sp, &j);
                         uint8_t tag[4];
-                        LIBCALL(IMB_KASUMI_F9_1_BUFFER(M, j.tmpl.u.KASUMI_UIA1._key, IN_OF(&j) + sp.hoff, sp.hlen, tag));
+                        (void) HXC(f9_1_buffer, j.tmpl.u.KASUMI_UIA1._key, IN_OF(&j) + sp.hoff, sp.hlen, tag);
                         log_direct("kasumi_f9_1", "+KASUMIUIA1", 1, memcmp(tag, j.tag, 4) == 0, st2);
                         hx_job_free(&j);
                 }
@@ -634,12 +643,11 @@ nbuf_all(hx_rng *g, int reps)
                                 tags[i] = 0;
                                 tagp[i] = g_guard ? (uint32_t *) ga_alloc(4, 4, g_place, "direct_tag", 0) : &tags[i];
                         }
-                        LIBCALL(IMB_ZUC_EIA3_N_BUFFER(M, keys, ivs, srcs, bits, tagp, (uint32_t) n));
+                        (void) HXC(eia3_n_buffer, keys, ivs, srcs, bits, tagp, (uint32_t) n);
                         for (int i = 0; i < n; i++) {
                                 uint32_t one = 0;
                                 tags[i] = *tagp[i];
-                                LIBCALL(IMB_ZUC_EIA3_1_BUFFER(M, zj[i].tmpl.u.ZUC_EIA3._key, zj[i].tmpl.u.ZUC_EIA3._iv,
-                                                      IN_OF(&zj[i]) + zj[i].sp.hoff, bits[i], &one));
+                                (void) HXC(eia3_1_buffer, zj[i].tmpl.u.ZUC_EIA3._key, zj[i].tmpl.u.ZUC_EIA3._iv, IN_OF(&zj[i]) + zj[i].sp.hoff, bits[i], &one);
                                 if (memcmp(&tags[i], zj[i].tag, 4) != 0 || one != tags[i]) {
                                         same = 0;
                                         if (getenv("NBUF_DEBUG")) {
@@ -679,9 +687,9 @@ nbuf_all(hx_rng *g, int reps)
                         memcpy(dkeep, dsts, sizeof(dkeep));
                         memcpy(lkeep, lens, sizeof(lkeep));
                         if (n == 4 && (it & 1))
-                                LIBCALL(IMB_ZUC_EEA3_4_BUFFER(M, keys, ivs, srcs, dsts, lens));
+                                (void) HXC(eea3_4_buffer, keys, ivs, srcs, dsts, lens);
                         else
-                                LIBCALL(IMB_ZUC_EEA3_N_BUFFER(M, keys, ivs, srcs, dsts, lens, (uint32_t) n));
+                                (void) HXC(eea3_n_buffer, keys, ivs, srcs, dsts, lens, (uint32_t) n);
                         for (int i = 0; i < n; i++) {
                                 if (memcmp(dkeep[i], zj[i].dst, lkeep[i]) != 0)
                                         same = 0;
@@ -736,10 +744,10 @@ nbuf_all(hx_rng *g, int reps)
                                                        dsts[3], lens[3], srcs[4], dsts[4], lens[4], srcs[5], dsts[5], lens[5], srcs[6],
                                                        dsts[6], lens[6], srcs[7], dsts[7], lens[7]));
                         } else
-                                LIBCALL(IMB_SNOW3G_F8_N_BUFFER(M, k0, ivs2, srcs2, dsts2, lens2, (uint32_t) n));
+                                (void) HXC(snow3g_f8_n_buffer, k0, ivs2, srcs2, dsts2, lens2, (uint32_t) n);
                         for (int i = 0; i < n; i++) {
                                 uint8_t *one = out_alloc(lens[i]);
-                                LIBCALL(IMB_SNOW3G_F8_1_BUFFER(M, k0, ivs[i], srcs[i], one, lens[i]));
+                                (void) HXC(snow3g_f8_1_buffer, k0, ivs[i], srcs[i], one, lens[i]);
                                 if (memcmp(one, dsts[i], lens[i]) != 0)
                                         same = 0;
                                 out_free(one);
@@ -754,10 +762,9 @@ nbuf_all(hx_rng *g, int reps)
                         memcpy(lens2, lens, sizeof(lens2));
                         memcpy(keys2, keys, sizeof(keys2));
                         if (n == 8)
-                                LIBCALL(IMB_SNOW3G_F8_8_BUFFER_MULTIKEY(M, (const snow3g_key_schedule_t *const *) keys2, ivs2, srcs2, dsts2, lens2));
+                                (void) HXC(snow3g_f8_8_buffer_multikey, (const snow3g_key_schedule_t *const *) keys2, ivs2, srcs2, dsts2, lens2);
                         else
-                                LIBCALL(IMB_SNOW3G_F8_N_BUFFER_MULTIKEY(M, (const snow3g_key_schedule_t *const *) keys2, ivs2, srcs2, dsts2, lens2,
-                                                                (uint32_t) n));
+                                (void) HXC(snow3g_f8_n_buffer_multikey, (const snow3g_key_schedule_t *const *) keys2, ivs2, srcs2, dsts2, lens2, (uint32_t) n);
                         for (int i = 0; i < n; i++) {
                                 if (memcmp(dmk[i], zj[i].dst, lens[i]) != 0)
                                         samemk = 0;
@@ -801,7 +808,7 @@ nbuf_all(hx_rng *g, int reps)
                         const char *fn = "kasumi_f8_n_struct";
                         if (n == 1) {
                                 fn = "kasumi_f8_1_bit";
-                                LIBCALL(IMB_KASUMI_F8_1_BUFFER_BIT(M, k0, ivs[0], srcs[0], dsts[0], lens[0] * 8, 0));
+                                (void) HXC(f8_1_buffer_bit, k0, ivs[0], srcs[0], dsts[0], lens[0] * 8, 0);
                         } else if (n == 2) {
                                 fn = "kasumi_f8_2";
                                 LIBCALL(IMB_KASUMI_F8_2_BUFFER(M, k0, ivs[0], ivs[1], srcs[0], dsts[0], lens[0], srcs[1], dsts[1], lens[1]));
@@ -814,10 +821,10 @@ nbuf_all(hx_rng *g, int reps)
                                 LIBCALL(IMB_KASUMI_F8_4_BUFFER(M, k0, ivs[0], ivs[1], ivs[2], ivs[3], srcs[0], dsts[0], srcs[1], dsts[1], srcs[2],
                                                        dsts[2], srcs[3], dsts[3], lens[0]));
                         } else
-                                LIBCALL(IMB_KASUMI_F8_N_BUFFER(M, k0, ivs2, srcs2, dsts2, lens2, (uint32_t) n));
+                                (void) HXC(f8_n_buffer, k0, ivs2, srcs2, dsts2, lens2, (uint32_t) n);
                         for (int i = 0; i < n; i++) {
                                 uint8_t *one = out_alloc(lens[i]);
-                                LIBCALL(IMB_KASUMI_F8_1_BUFFER(M, k0, ivs[i], srcs[i], one, lens[i]));
+                                (void) HXC(f8_1_buffer, k0, ivs[i], srcs[i], one, lens[i]);
                                 if (memcmp(one, dsts[i], lens[i]) != 0)
                                         same = 0;
                                 out_free(one);
@@ -838,7 +845,7 @@ nbuf_all(hx_rng *g, int reps)
                         sp.inplace = 0;
                         int st = job_result("SNOW3GE", &sp, &j);
                         uint8_t *out = out_alloc(sp.len);
-                        LIBCALL(IMB_SNOW3G_F8_1_BUFFER_BIT(M, j.tmpl.enc_keys, j.iv, IN_OF(&j), out, (uint32_t) j.tmpl.msg_len_to_cipher_in_bits, 0));
+                        (void) HXC(snow3g_f8_1_buffer_bit, j.tmpl.enc_keys, j.iv, IN_OF(&j), out, (uint32_t) j.tmpl.msg_len_to_cipher_in_bits, 0);
                         const uint32_t nb = (uint32_t) j.tmpl.msg_len_to_cipher_in_bits / 8, rem = (uint32_t) j.tmpl.msg_len_to_cipher_in_bits % 8;
                         int same = memcmp(out, j.dst, nb) == 0;
                         if (rem && ((out[nb] ^ j.dst[nb]) & (uint8_t) (0xff << (8 - rem))))
@@ -860,20 +867,20 @@ nbuf_all(hx_rng *g, int reps)
                         const uint64_t cut = sp.hlen ? hx_below(g, sp.hlen + 1) : 0;
                         const struct gcm_key_data *key = j.tmpl.u.GMAC._key;
                         if (w == 0) {
-                                LIBCALL(IMB_AES128_GMAC_INIT(M, key, &ctx, j.tmpl.u.GMAC._iv, j.tmpl.u.GMAC.iv_len_in_bytes));
-                                LIBCALL(IMB_AES128_GMAC_UPDATE(M, key, &ctx, src, cut));
-                                LIBCALL(IMB_AES128_GMAC_UPDATE(M, key, &ctx, src + cut, sp.hlen - cut));
-                                LIBCALL(IMB_AES128_GMAC_FINALIZE(M, key, &ctx, tag, sp.taglen));
+                                (void) HXC(gmac128_init, key, &ctx, j.tmpl.u.GMAC._iv, j.tmpl.u.GMAC.iv_len_in_bytes);
+                                (void) HXC(gmac128_update, key, &ctx, src, cut);
+                                (void) HXC(gmac128_update, key, &ctx, src + cut, sp.hlen - cut);
+                                (void) HXC(gmac128_finalize, key, &ctx, tag, sp.taglen);
                         } else if (w == 1) {
-                                LIBCALL(IMB_AES192_GMAC_INIT(M, key, &ctx, j.tmpl.u.GMAC._iv, j.tmpl.u.GMAC.iv_len_in_bytes));
-                                LIBCALL(IMB_AES192_GMAC_UPDATE(M, key, &ctx, src, cut));
-                                LIBCALL(IMB_AES192_GMAC_UPDATE(M, key, &ctx, src + cut, sp.hlen - cut));
-                                LIBCALL(IMB_AES192_GMAC_FINALIZE(M, key, &ctx, tag, sp.taglen));
+                                (void) HXC(gmac192_init, key, &ctx, j.tmpl.u.GMAC._iv, j.tmpl.u.GMAC.iv_len_in_bytes);
+                                (void) HXC(gmac192_update, key, &ctx, src, cut);
+                                (void) HXC(gmac192_update, key, &ctx, src + cut, sp.hlen - cut);
+                                (void) HXC(gmac192_finalize, key, &ctx, tag, sp.taglen);
                         } else {
-                                LIBCALL(IMB_AES256_GMAC_INIT(M, key, &ctx, j.tmpl.u.GMAC._iv, j.tmpl.u.GMAC.iv_len_in_bytes));
-                                LIBCALL(IMB_AES256_GMAC_UPDATE(M, key, &ctx, src, cut));
-                                LIBCALL(IMB_AES256_GMAC_UPDATE(M, key, &ctx, src + cut, sp.hlen - cut));
-                                LIBCALL(IMB_AES256_GMAC_FINALIZE(M, key, &ctx, tag, sp.taglen));
+                                (void) HXC(gmac256_init, key, &ctx, j.tmpl.u.GMAC._iv, j.tmpl.u.GMAC.iv_len_in_bytes);
+                                (void) HXC(gmac256_update, key, &ctx, src, cut);
+                                (void) HXC(gmac256_update, key, &ctx, src + cut, sp.hlen - cut);
+                                (void) HXC(gmac256_finalize, key, &ctx, tag, sp.taglen);
                         }
                         log_direct("gmac_stream", gk[w], 2, memcmp(tag, j.tag, sp.taglen) == 0, st);
                         hx_job_free(&j);
@@ -886,7 +893,7 @@ nbuf_all(hx_rng *g, int reps)
                         hx_force_len = -1;
                         int st = job_result("CFB256E", &sp, &j);
                         uint8_t out[16];
-                        LIBCALL(IMB_AES256_CFB_ONE(M, out, IN_OF(&j) + sp.coff, j.iv, j.tmpl.enc_keys, 16));
+                        (void) HXC(aes256_cfb_one, out, IN_OF(&j) + sp.coff, j.iv, j.tmpl.enc_keys, 16);
                         log_direct("cfb256_one", "CFB256E", 1, memcmp(out, j.dst, 16) == 0, st);
                         hx_job_free(&j);
                 }
@@ -934,8 +941,8 @@ hec_all(hx_rng *g, int reps)
                         be4 = (be4 << 8) | h4[i];
                 const uint64_t want8 = hec_ref(be8, 64);
                 const uint32_t want4 = (uint32_t) hec_ref(be4, 32);
-                uint64_t got8 = LIBVAL(IMB_HEC_64(M, h8));
-                uint32_t got4 = LIBVAL(IMB_HEC_32(M, h4));
+                uint64_t got8 = ((__typeof__(IMB_HEC_64(M, h8))) HXC(hec_64, h8));
+                uint32_t got4 = ((__typeof__(IMB_HEC_32(M, h4))) HXC(hec_32, h4));
                 uint8_t w8[8], w4[4];
                 for (int i = 0; i < 8; i++)
                         w8[i] = (uint8_t) (want8 >> (56 - 8 * i));
@@ -952,7 +959,7 @@ hec_all(hx_rng *g, int reps)
                 hx_job j;
                 hx_spec_from_kind("PONE", g, &sp);
                 int st = job_result("PONE", &sp, &j);
-                uint64_t got = LIBVAL(IMB_HEC_64(M, IN_OF(&j) + sp.hoff));
+                uint64_t got = ((__typeof__(IMB_HEC_64(M, IN_OF(&j) + sp.hoff))) HXC(hec_64, IN_OF(&j) + sp.hoff));
                 log_direct("hec_64_vs_pon_job", "PONE", 1, memcmp(&got, j.src + sp.hoff, 8) == 0, st);
                 hx_job_free(&j);
                 ga_reset();
@@ -981,7 +988,7 @@ oneblock_all(hx_rng *g, int reps)
                         SHA1_Init(&c);
                         SHA1_Transform(&c, blk);
                         uint32_t w[5] = { c.h0, c.h1, c.h2, c.h3, c.h4 };
-                        LIBCALL(IMB_SHA1_ONE_BLOCK(M, blk, out));
+                        (void) HXC(sha1_one_block, blk, out);
                         same = memcmp(out, w, 20) == 0;
                         log_direct("sha1_one_block", "+SHA1", 1, same, IMB_STATUS_COMPLETED);
                         break;
@@ -990,7 +997,7 @@ oneblock_all(hx_rng *g, int reps)
                         SHA256_CTX c;
                         SHA224_Init(&c);
                         SHA256_Transform(&c, blk);
-                        LIBCALL(IMB_SHA224_ONE_BLOCK(M, blk, out));
+                        (void) HXC(sha224_one_block, blk, out);
                         same = memcmp(out, c.h, 32) == 0;
                         log_direct("sha224_one_block", "+SHA224", 1, same, IMB_STATUS_COMPLETED);
                         break;
@@ -999,7 +1006,7 @@ oneblock_all(hx_rng *g, int reps)
                         SHA256_CTX c;
                         SHA256_Init(&c);
                         SHA256_Transform(&c, blk);
-                        LIBCALL(IMB_SHA256_ONE_BLOCK(M, blk, out));
+                        (void) HXC(sha256_one_block, blk, out);
                         same = memcmp(out, c.h, 32) == 0;
                         log_direct("sha256_one_block", "+SHA256", 1, same, IMB_STATUS_COMPLETED);
                         break;
@@ -1008,7 +1015,7 @@ oneblock_all(hx_rng *g, int reps)
                         SHA512_CTX c;
                         SHA384_Init(&c);
                         SHA512_Transform(&c, blk);
-                        LIBCALL(IMB_SHA384_ONE_BLOCK(M, blk, out));
+                        (void) HXC(sha384_one_block, blk, out);
                         same = memcmp(out, c.h, 64) == 0;
                         log_direct("sha384_one_block", "+SHA384", 1, same, IMB_STATUS_COMPLETED);
                         break;
@@ -1017,7 +1024,7 @@ oneblock_all(hx_rng *g, int reps)
                         SHA512_CTX c;
                         SHA512_Init(&c);
                         SHA512_Transform(&c, blk);
-                        LIBCALL(IMB_SHA512_ONE_BLOCK(M, blk, out));
+                        (void) HXC(sha512_one_block, blk, out);
                         same = memcmp(out, c.h, 64) == 0;
                         log_direct("sha512_one_block", "+SHA512", 1, same, IMB_STATUS_COMPLETED);
                         break;
@@ -1027,7 +1034,7 @@ oneblock_all(hx_rng *g, int reps)
                         MD5_Init(&c);
                         MD5_Transform(&c, blk);
                         uint32_t w[4] = { c.A, c.B, c.C, c.D };
-                        LIBCALL(IMB_MD5_ONE_BLOCK(M, blk, out));
+                        (void) HXC(md5_one_block, blk, out);
                         same = memcmp(out, w, 16) == 0;
                         log_direct("md5_one_block", "+HMACMD5", 1, same, IMB_STATUS_COMPLETED);
                         break;
